@@ -248,7 +248,11 @@ def run(sc: dict) -> Result:
                 elif first_payload:
                     res.probes["resent_identical"] += 1
         if isinstance(err, UnrewindableBodyError):
-            res.probes["unrewindable_raised"] += 1
+            if not attempts:
+                # refusing to *re*-send is what the statement allows; refusing the first transmission of a body is not
+                res.bad("unrewindable_on_first_attempt", f"{sc['body']['kind']} body via {sc['entry']}: {err!s:.120} although nothing had been sent yet")
+            else:
+                res.probes["unrewindable_raised"] += 1
         elif isinstance(err, Exception) and not H.is_urllib3_error(err):
             if not (isinstance(err, TypeError) and sc["body"]["kind"] in ("list_str",)):
                 res.probes["other_exception:" + type(err).__name__] += 1
